@@ -218,7 +218,7 @@ func classifyIntArith(c Case) (bool, []string) {
 var specIntArith = pbt.Spec[Case]{
 	Property: prop, Name: "int-arith",
 	Rule:     "one call of sumi/subi/multi/divi/modi/maxi/mini with 2-5 canonical int64 arguments (boundaries, powers of 2/10 +-1, small) each supplied as constant, group or key; result compared with a big.Int left fold (negative inexact division: convention-free law); 1 in 12 cases has a non-numeric argument. Non-trivial: a negative, zero or >2^53 argument, arity>2, or a non-numeric argument",
-	Budget:   pbt.Budget{Quick: 60000, Thorough: 3000000},
+	Budget:   pbt.Budget{Quick: 20000, Thorough: 160000},
 	Gen:      genIntArith,
 	Check:    checkIntArith,
 	Classify: classifyIntArith,
